@@ -62,6 +62,13 @@ class Lock:
         self.f.close()
 
 
+# generated modules that duplicate a complete hand-written executable model (proved equal to it in Props/*Gen.lean):
+# module -> the model and the correspondence that ties it to the code when the translator refuses the source
+DOUBLY_TIED = {
+    "MultLoops": "Model/Multiplicity.lean (exact correspondence of runStepup / runStepdown with adjust_fdr / adjust_fwer)",
+    "Pairs": "Model/Experiment.lean `pairs` / `analyzePairs` (correspondence of pairs and raise-or-not with Experiment.analyze)",
+}
+
 # ------------------------------------------------------------------------------ translator
 def regenerate(modules: list[str] | None = None) -> dict:
     """Regenerate Gen/*.lean from the current source.  A generated module whose source the translator refuses falls
@@ -344,7 +351,15 @@ class Check:
             deps = gen_dependencies(self.prop)
             self.cov["generated_modules_used"] = sorted(deps)
             for mod, why in sorted(self.tie.get("refused", {}).items()):
-                if mod in deps:
+                if mod in deps and mod in DOUBLY_TIED:
+                    # this part of the code has a complete hand-written executable model whose equality with the
+                    # generated definitions is a theorem whenever the translator accepts the source; when it does not
+                    # (a rewrite outside the accepted fragment), the model stays tied to the code by its exact
+                    # correspondence run — the second of the two admissible ties — so this alone is not a broken tie
+                    self.notes.append(f"Gen.{mod}: the translator does not accept the current source ({why}); "
+                                      f"{DOUBLY_TIED[mod]} is tied by the correspondence run alone in this run")
+                    self.cov.setdefault("tie_fallback", {})[mod] = why
+                elif mod in deps:
                     self.broken.append(f"tie: the translator refused the current source of Gen.{mod} ({why}); the theorems "
                                        f"were re-checked against the snapshot model, not the code")
             if self.tier == "thorough" and ok:
